@@ -663,7 +663,7 @@ func runL4Case(c *l4Case) (obs *l4Obs) {
 	return obs
 }
 
-var l4Props = []string{"C12", "C13", "C14", "C15", "C20"}
+var l4Props = []string{"C09", "C12", "C13", "C14", "C15", "C20"}
 
 func runL4(args []string) {
 	fs := flag.NewFlagSet("l4", flag.ExitOnError)
